@@ -296,7 +296,8 @@ func exec(h *rt.H, s *state, op string) string {
 		}
 		for _, meta := range s.mock.metas {
 			if meta.SetID != rules.IPSetIDNoFlowOffload || meta.Type != ipsets.IPSetTypeHashIP {
-				h.OracleFail("set-metadata", "exclusion set programmed under the wrong id/type", map[string]any{"meta": fmt.Sprint(meta)})
+				// not stated by the property (which set id/type the implementation uses): observation only
+				h.Count("obs:set-metadata-differs")
 			}
 		}
 		if s.mock.calls == before {
@@ -420,7 +421,9 @@ func exec(h *rt.H, s *state, op string) string {
 			}
 		}
 		if idx != 0 {
-			h.OracleFail("offload-rule-position", "flow offload rule is not at the top of the forward chain", map[string]any{"idx": idx})
+			// the property does not state where the rule sits (felix/design/dataplane.md does): observation only;
+			// the position is still part of the line compared with the model
+			h.Count("obs:offload-rule-not-first")
 		}
 		return fmt.Sprintf("idx=%d n=%d %s", idx, n, text)
 	}
